@@ -60,12 +60,13 @@ package anthropic
 
 //@ func (t *Translator) getSessionID
 //@   property C13
-//@   trusted
+//@   safety
+//@   requires t != nil && t.inspector != nil && r != nil
 
 //@ func (t *Translator) TransformResponse
 //@   property C13 C20
 //@   safety
-//@   requires t != nil && t.logger != nil && t.inspector != nil
+//@   requires t != nil && t.logger != nil && t.inspector != nil && original != nil
 //@   modifies *
 //@   ensures res1 == nil ==> res0 != nil
 // what is returned is the assembled message: its blocks and stop reason are convertResponseContent's
@@ -204,12 +205,13 @@ package anthropic
 
 //@ func (t *Translator) logStreamingResponse
 //@   property C13
-//@   trusted
+//@   safety
+//@   requires t != nil && t.inspector != nil && t.logger != nil && state != nil && original != nil
 
 //@ func (t *Translator) finalizeStream
 //@   property C13
 //@   safety
-//@   requires t != nil && rc != nil && t.inspector != nil && t.logger != nil && streamInv(state) && (evBroken || evStarted)
+//@   requires t != nil && rc != nil && t.inspector != nil && t.logger != nil && streamInv(state) && (evBroken || evStarted) && original != nil
 //@   modifies gvar evStarted, gvar evOpen, gvar evNext, gvar evDelta, gvar evStopped, gvar evBroken, gvar unflushed, gvar wBytes, gvar textOut, gvar argsOut, state.contentBlocks
 //@   loop 1 invariant streamInv2(state) && (old(evBroken) ==> evBroken)
 //@   ensures res == nil && !evBroken ==> evStarted && evDelta && evStopped && evOpen == -1
@@ -245,7 +247,7 @@ package anthropic
 //@ func (t *Translator) TransformStreamingResponse
 //@   property C13 C20
 //@   safety
-//@   requires t != nil && t.inspector != nil && t.logger != nil && w != nil && ctx != nil
+//@   requires t != nil && t.inspector != nil && t.logger != nil && w != nil && ctx != nil && original != nil
 //@   requires !evStarted && evOpen == -1 && evNext == 0 && !evDelta && !evStopped && !evBroken
 //@   requires argsOut == "" && argsIn == ""
 //@   modifies *
@@ -409,7 +411,7 @@ package anthropic
 //@ func (t *Translator) PreparePassthrough
 //@   property C14
 //@   safety
-//@   requires t != nil && t.logger != nil && t.inspector != nil
+//@   requires t != nil && t.logger != nil && t.inspector != nil && r != nil
 //@   refines translator.PassthroughCapable.PreparePassthrough
 //@   ensures res1 == nil ==> res0 != nil && sameSlice(res0.Body, bodyBytes) && res0.TargetPath == "/v1/messages"
 //@   ensures res1 != nil ==> res0 == nil
